@@ -80,7 +80,13 @@ func die(f string, a ...any) { fmt.Fprintf(os.Stderr, "instr: "+f+"\n", a...); o
 func main() {
 	out := flag.String("out", "", "output dir")
 	tags := flag.String("tags", "default_build,verif", "build tags")
+	nosub := flag.String("nosubst", "", "comma separated importpath.Name entries that are NOT redirected in this run (values flow into uninstrumented library types)")
 	flag.Parse()
+	for _, e := range strings.Split(*nosub, ",") {
+		if i := strings.LastIndex(e, "."); i > 0 {
+			delete(subst, [2]string{e[:i], e[i+1:]})
+		}
+	}
 	if *out == "" || flag.NArg() == 0 {
 		die("usage: instr -out DIR pkg...")
 	}
